@@ -547,3 +547,6 @@ def run(ctx):
     once_rule(ctx, P)
     role_rule(ctx, P)
     order_rule(ctx, P)
+    # the optimum that is reported is the score of the path that is returned (shared with C03)
+    from . import c03
+    c03.score_of_exit_rule(ctx, P)
